@@ -35,8 +35,8 @@ ASSUMPTIONS = [
 BOUNDS = {"quick": {"max_atoms": 10}, "thorough": {"max_atoms": 24}}
 
 
-def _outcome(api, text, ast_for_setup, assignment, what):
-    evalhelp.setup_for(ast_for_setup, assignment)
+def _outcome(api, text, ast_for_setup, assignment, what, style="hardcoded", hint_texts=None):
+    evalhelp.setup_for(ast_for_setup, assignment, style=style, hint_texts=hint_texts)
     res = sut.call(api.requirement_constraint_evaluation, text)
     if not res.ok:
         if res.is_a(sut.InvalidExpressionError):
@@ -49,8 +49,9 @@ def check_transform(case):
     api = evalhelp.api()
     units = []
     for assignment in case["assignments"]:
-        base = _outcome(api, case["s"], case["ast"], assignment, "original")
-        changed = _outcome(api, case["t_s"], case["t_ast"], assignment, "transformed")
+        style, texts = case.get("style", "hardcoded"), case.get("hint_texts")
+        base = _outcome(api, case["s"], case["ast"], assignment, "original", style, texts)
+        changed = _outcome(api, case["t_s"], case["t_ast"], assignment, "transformed", style, texts)
         if base != changed:
             fail("outcome-changed", f"{case['kind']} at {case['site']}: {case['s']!r} -> {base} but "
                  f"{case['t_s']!r} -> {changed} under {assignment}")  # fmt: skip
@@ -59,7 +60,9 @@ def check_transform(case):
 
 
 def classify_transform(case, info):
-    labels = ["kind=" + case["kind"], f"site-depth={min(len(case['site']), 4)}"]
+    labels = ["kind=" + case["kind"], f"site-depth={min(len(case['site']), 4)}", "evaluators=" + case.get("style", "hardcoded")]
+    if "" in (case.get("hint_texts") or {}).values():
+        labels.append("empty-hint-text")
     if any("K" in a.values() for a in case["assignments"]):
         labels.append("has-unknown")
     return labels, any(n for _, n in info["_units"])
@@ -163,8 +166,11 @@ def strategy_transform(tier):
         if ref.validity(t_ast) != "valid":
             # by the statement the transformations keep an expression valid; the structural criterion agrees
             raise AssertionError(f"transformation {kind} produced an expression the criterion calls invalid: {t_ast}")
+        hint_keys = ref.keys_of(t_ast, "hint")
+        texts = {k: draw(st.sampled_from(gen.HINT_TEXTS + [""])).replace("{key}", k) for k in hint_keys}
         return {"ast": ast, "s": text, "t_ast": t_ast, "t_s": t_text, "kind": kind, "site": list(site),
-                "assignments": assignments}  # fmt: skip
+                "assignments": assignments, "style": draw(st.sampled_from(["hardcoded", "hardcoded", "cer", "cer-recased"])),
+                "hint_texts": texts}  # fmt: skip
 
     return build()
 
